@@ -534,6 +534,26 @@ func genConc(prop string, seed uint64, tier string) *ConcScenario {
 	case "C16":
 		g.c16Workload(sc, hot)
 	}
+	sc.Tier = tier
+	if prop == "C13" && cacheFam && g.r.Bool(0.12) {
+		// a running clock (every reading is later than the last one) and, in half
+		// of these, a callback that re-arms what was evicted with a TTL of 1 ns:
+		// every call must still return
+		sc.TickPerRead = int64(1 + g.r.Intn(4))
+		if sc.Ctor.Interval > 0 && sc.Ctor.Interval < int64(time.Second) {
+			sc.Ctor.Interval = int64(time.Hour) // a janitor with a period of nanoseconds would never be idle under this clock
+		}
+		if g.r.Bool(0.5) {
+			sc.CBKind = 5
+			sc.Ctor.CB = sc.Ctor.Ctor != "plain" && g.r.Bool(0.5)
+			for pi := range sc.Phases {
+				sc.Phases[pi].Tasks = append(sc.Phases[pi].Tasks, []Op{{K: CDeleteExpired}})
+			}
+			for k := 0; k < hot; k++ {
+				sc.Setup = append(sc.Setup, Op{K: CSet, Key: k, Val: g.val(), D: 1})
+			}
+		}
+	}
 	sc.Strategy = g.strategy(steps + 50)
 	return sc
 }
